@@ -126,6 +126,43 @@ pub broadcast proof fn lemma_enumerate_elem<I: Iterator>(it: I, r: core::iter::E
     axiom_enumerate(it, r);
 }
 
+// ---- the crate's borrowing iterator `Iter` as a vstd iterator
+/// vstd's prophetic iterator functions under names that are unambiguous inside an impl of IteratorSpecImpl
+#[verifier::prophetic]
+pub open spec fn it_rem<I: Iterator>(it: I) -> Seq<I::Item> { it.remaining() }
+#[verifier::prophetic]
+pub open spec fn it_none<I: Iterator>(it: I) -> bool { it.will_return_none() }
+pub open spec fn it_dec<I: Iterator>(it: I) -> Option<nat> { it.decrease() }
+
+/// a live slot seen as (&key, &value)
+pub open spec fn slot_refs<'a, K, V>(p: &'a MaybeUninit<(K, V)>) -> (&'a K, &'a V) {
+    (&p.mem_contents().value().0, &p.mem_contents().value().1)
+}
+
+impl<'a, K, V> vstd::std_specs::iter::IteratorSpecImpl for Iter<'a, K, V> {
+    /// ASSUMED for the trait-level `next` (see specs.toml, "Iter::next(trait)")
+    open spec fn obeys_prophetic_iter_laws(&self) -> bool { true }
+    #[verifier::prophetic]
+    open spec fn remaining(&self) -> Seq<(&'a K, &'a V)> {
+        Seq::new(it_rem(self.iter).len(), |i: int| slot_refs(it_rem(self.iter)[i]))
+    }
+    #[verifier::prophetic]
+    open spec fn will_return_none(&self) -> bool { it_none(self.iter) }
+    open spec fn decrease(&self) -> Option<nat> { it_dec(self.iter) }
+    /// no non-prophetic look-ahead is claimed
+    open spec fn peek(&self, index: int) -> Option<(&'a K, &'a V)> { None }
+}
+
+/// trigger plumbing (proved): a slot the inner slice iterator will yield is an item `Iter` will yield
+pub broadcast proof fn lemma_iter_elem<'a, K, V>(it: Iter<'a, K, V>, i: int)
+    requires 0 <= i < it.iter.remaining().len(),
+    ensures it.remaining()[i] == slot_refs(#[trigger] it.iter.remaining()[i]),
+{}
+
+/// ASSUMED: `<[T] as AsRef<[T]>>::as_ref` is the identity
+pub assume_specification<T>[ <[T] as core::convert::AsRef<[T]>>::as_ref ](s: &[T]) -> (r: &[T])
+    ensures r == s;
+
 impl<K, V, const N: usize> Map<K, V, N> {
     pub open spec fn slot(&self, i: int) -> Option<(K, V)> {
         slot_of(self.pairs, i)
